@@ -180,6 +180,14 @@ def S9():
         c["tag"] = tag
         yield c
     A, Bb = V("a"), V("b")
+    # a value fanning out to its own projection and to a combinator reading both; same-named chain
+    yield mk("S9", [("decl", "Signal", "s1", B("*", A, I(3))), ("decl", "Signal", "c1", ("proj", V("s1"), "signal-B")),
+                    ("decl", "Signal", "t1", B("*", V("s1"), V("c1"))), ("decl", "Signal", "r1", B("+", V("t1"), V("s1")))], ["r1"])
+    yield mk("S9", [("decl", "Signal", "s1", B("*", B("+", V("i"), ("proj", V("c"), "iron-plate")), I(3))),
+                    ("decl", "Signal", "c1", ("proj", V("s1"), "copper-plate")), ("decl", "Signal", "t1", B("+", V("s1"), V("c1"))),
+                    ("decl", "Signal", "r1", B("*", V("t1"), I(2)))], ["r1"])
+    yield mk("S9", [("decl", "Signal", "s1", ("proj", B("+", V("x"), I(1)), "signal-X")), ("decl", "Signal", "a1", ("proj", B("+", V("s1"), I(1)), "signal-X")),
+                    ("decl", "Signal", "r1", ("proj", B("*", V("s1"), V("a1")), "signal-X"))], ["r1"])
     # one product projected to two types and both consumed again
     yield mk("S9", [("decl", "Signal", "x1", ("proj", B("*", A, Bb), "signal-X")), ("decl", "Signal", "y1", ("proj", B("*", A, Bb), "signal-Y")),
                     ("decl", "Signal", "r1", B("-", V("x1"), V("y1"))), ("decl", "Signal", "r2", B("*", V("y1"), I(2)))], ["r1", "r2"])
